@@ -126,6 +126,19 @@ theorem retained_all_inspectors_le (chunks : List Bytes) :
     subst hx
     exact retained_le_bound f s0 h0 chunks
 
+/-- the same under `InspectWrapper`'s discipline (failed inspectors no longer fed, all finished at close) -/
+theorem retained_all_inspectors_le_wrapper (chunks : List Bytes) :
+    (Fmt.all.filterMap (fun f => (Insp.init f).map (fun s0 => (runChunks s0 chunks).1.retained))).sum
+      ≤ (Fmt.all.map limit).sum := by
+  apply lemma_sum_filterMap_le
+  intro f x hx
+  cases h0 : Insp.init f with
+  | none => simp [h0] at hx
+  | some s0 =>
+    simp only [h0, Option.map_some, Option.some.injEq] at hx
+    subst hx
+    exact retained_le_bound_wrapper f s0 h0 chunks
+
 /-- … which is the constant 6 MiB (over the generated constants), and every format is present in that sum -/
 theorem all_limits_sum : (Fmt.all.map limit).sum = 6 * 1024 * 1024 ∧
     (Fmt.all.filterMap (fun f => (Insp.init f).map (fun _ => 1))).sum = 10 := by decide
